@@ -9,6 +9,12 @@ R-UNDO-SELF : a field of the operation record written by only one of undo/redo m
               (capture-then-consume, e.g. `self.from = layer.get_size()` in redo, used by undo); a field that one side
               overwrites and the other never looks at means the record no longer describes the edit after the first round
               trip (two snapshots swapped instead of cloned).
+R-UNDO-ORDER: an operation that replays a list of sub-operations (calls UndoOperation::undo / redo on the elements of a
+              collection inside a loop) walks the list backwards in undo and forwards in redo.
+R-UNDO-GUARD: the lock- / visibility-guarded mutators of `Layer` (methods that read `properties.is_locked`, `is_visible`,
+              `is_position_locked` or `is_alpha_channel_locked` and write the layer) reachable from `undo` are the same as those
+              reachable from `redo`: if only one direction goes through a setter that silently does nothing on a locked or
+              hidden layer, the two are not inverse on such a layer (the property quantifies over hidden and locked layers).
 R-PUSH      : push_plain_undo clears the redo stack on every path that pushes; begin_typed_atomic_undo clears it
               unconditionally; push_undo_action applies the operation (redo) before recording it; UndoState::undo / redo move
               the popped operation to the other stack on every path after calling it; Drop for AtomicUndoGuard reaches
@@ -125,7 +131,7 @@ def run(chk):
     f = F.load()
     g = CallGraph(f)
     eff = Effects(f, g)
-    chk.rules = ["R-UNDO-SYM", "R-UNDO-SELF", "R-PUSH"]
+    chk.rules = ["R-UNDO-SYM", "R-UNDO-SELF", "R-UNDO-ORDER", "R-UNDO-GUARD", "R-PUSH"]
     chk.assumptions = ["write sets are may-sets over access paths (field names; indices dropped): equality of the sets is a necessary condition of restorability, not a proof of it",
                        "editor-side state (selection, masks, current layer, caret, dirty flags) is outside the property's list of what must be restored"]
     reviewed = {}
@@ -181,6 +187,8 @@ def run(chk):
         if su == sr:
             chk.obligation(True)
     chk.floor("R-UNDO-SYM", "document write paths compared", nwrites, 60)
+    undo_order(chk, f, impls)
+    undo_guard(chk, f, g, eff, impls)
     # ------------------------------------------------------------------ R-PUSH
     es = "editor::EditState"
 
@@ -245,3 +253,104 @@ def run(chk):
     chk.cov["effect_analysis_rounds"] = eff.rounds
     return chk.finish("%d undo operations: document write sets of undo and redo compared path by path, record fields checked for "
                       "capture-then-consume; push / clear / move discipline of the two stacks checked by dominance." % len(impls), reviewed=reviewed)
+
+
+# ===================================================================================================== R-UNDO-ORDER
+def _replay_loops(b, which):
+    """[(direction, line)] for every loop of b that calls UndoOperation::<which> on something: direction is 'rev' when the
+    loop's iterator is a std::iter::Rev, else 'fwd'"""
+    out = []
+    heads = b.loop_heads()
+    for h in sorted(heads):
+        loop = b.natural_loop(h)
+        calls_in = [(bi, t) for bi, t in b.calls() if bi in loop]
+        replay = [t for bi, t in calls_in if (t["callee"].get("path") or "").endswith("%s::%s" % (TRAIT, which))]
+        if not replay:
+            continue
+        nexts = [(t["callee"].get("resolved") or t["callee"].get("path") or "") for bi, t in calls_in]
+        nexts = [p for p in nexts if p.endswith("::next")]
+        if not nexts:
+            out.append(("?", replay[0].get("line")))
+            continue
+        out.append(("rev" if any("std::iter::Rev<" in p for p in nexts) else "fwd", replay[0].get("line")))
+    return out
+
+
+def undo_order(chk, f, impls):
+    n = 0
+    for ty, d in sorted(impls.items()):
+        if len(d) != 2:
+            continue
+        short = ty.split("::")[-1]
+        ub, rb = f.bodies[d["undo"]], f.bodies[d["redo"]]
+        lu, lr = _replay_loops(ub, "undo"), _replay_loops(rb, "redo")
+        if not lu and not lr:
+            continue
+        n += 1
+        # decided only for iterator loops ('?' = an index loop or the like: direction not visible to this rule, no alarm)
+        ok = not any(x[0] == "fwd" for x in lu) and not any(x[0] == "rev" for x in lr)
+        chk.obligation(ok)
+        if not ok:
+            chk.finding("%s|order|undo=%s|redo=%s" % (short, ",".join(x[0] for x in lu) or "-", ",".join(x[0] for x in lr) or "-"), rule="R-UNDO-ORDER",
+                        where="%s:%s" % (ub.file, (lr or lu)[0][1]), fn=short,
+                        what="%s replays its sub-operations %s in undo and %s in redo: a group must be undone last-to-first and redone first-to-last" % (
+                            short, "/".join(x[0] for x in lu) or "not at all", "/".join(x[0] for x in lr) or "not at all"))
+    chk.floor("R-UNDO-ORDER", "composite operations (replay loops)", n, 1)
+
+
+# ===================================================================================================== R-UNDO-GUARD
+GUARD_FLAGS = {"is_locked", "is_visible", "is_position_locked", "is_alpha_channel_locked"}
+
+
+def _reads_guard_flag(b):
+    def has(pj):
+        return any(el != "*" and el[0] == "f" and el[2] in GUARD_FLAGS and "Properties" in str(el[3]) for el in (pj.get("p") or ()))
+    for bi, k, s in b.stmts():
+        if s["k"] != "assign":
+            continue
+        rv = s["rv"]
+        for key in ("a", "b"):
+            o = rv.get(key)
+            if isinstance(o, dict):
+                pj = o.get("copy") or o.get("move")
+                if pj is not None and has(pj):
+                    return True
+        if rv["k"] in ("ref", "discr", "len") and isinstance(rv.get("p"), dict) and has(rv["p"]):
+            return True
+    for bi, blk in enumerate(b.blocks):
+        t = blk["term"]
+        if t["k"] == "switch":
+            pj = t["discr"].get("copy") or t["discr"].get("move")
+            if pj is not None and has(pj):
+                return True
+    return False
+
+
+def undo_guard(chk, f, g, eff, impls):
+    guarded = set()
+    for bid, b in f.bodies.items():
+        if b.kind != "method" or b.impl_trait or not (b.impl_self_s or "").endswith("layer::Layer"):
+            continue
+        if not b.tys(1).startswith("&mut ") if b.argc >= 1 else True:
+            continue
+        if _reads_guard_flag(b) and eff.W.get(bid, {}).get(1):
+            guarded.add(bid)
+    chk.floor("R-UNDO-GUARD", "guarded Layer mutators", len(guarded), 4)
+    n = 0
+    for ty, d in sorted(impls.items()):
+        if len(d) != 2:
+            continue
+        short = ty.split("::")[-1]
+        gu = set(g.reachable([d["undo"]])) & guarded
+        gr = set(g.reachable([d["redo"]])) & guarded
+        n += 1
+        ok = gu == gr
+        chk.obligation(ok)
+        if not ok:
+            ub = f.bodies[d["undo"]]
+            for x in sorted(gu ^ gr):
+                side = "undo" if x in gu else "redo"
+                chk.finding("%s|guard|%s|%s-only" % (short, f.bodies[x].name, side), rule="R-UNDO-GUARD", where="%s:%s" % (ub.file, f.bodies[d[side]].line), fn="%s::%s" % (short, side),
+                            what="%s::%s goes through Layer::%s, which does nothing on a locked / hidden layer, and %s::%s does not: on such a layer the two directions are not inverse" % (
+                                short, side, f.bodies[x].name, short, "redo" if side == "undo" else "undo"))
+    chk.floor("R-UNDO-GUARD", "operations compared", n, 44)
